@@ -36,7 +36,7 @@ func Tree(c *Ctx, cfg TreeConfig) TreeResult {
 			c.NotExhaustive("deadline reached in scenario tree")
 			return res
 		}
-		valid := cfg.Run(seq)
+		valid := cfg.Run(append([]int{}, seq...))
 		res.Executions++
 		res.Events += int64(valid)
 		// new tree nodes contributed by this execution: positions >= first differing index
